@@ -345,6 +345,40 @@ C16_HistoryChain(x) ==
             \/ (Len(c2) = Len(m.commits) /\ Len(c2) > 0 /\ SubSeq(c2, 1, Len(c2) - 1) = SubSeq(m.commits, 1, Len(c2) - 1)
                 /\ Kind(x) = "Complete" /\ HasOrder(x.pre, x.ev.order) /\ OrderOf(x.pre, x.ev.order).op = 2)
 
+\* C17: DID registry integrity
+IsKeyDid(cfg, d) == InSeq(d, cfg.didOrder)
+BindingsOf(s, d) == {s.bindings[i].acc : i \in {j \in 1..Len(s.bindings) : s.bindings[j].did = d}}
+C17_BindingFunctional(s) == NoDup([i \in 1..Len(s.bindings) |-> s.bindings[i].acc])
+C17_ListMatchesBinding(s) ==
+    /\ \A i \in 1..Len(s.accLists) : LET l == s.accLists[i] IN
+          /\ \A k \in 1..Len(l.accs) : Has(s.accIds, "ad", l.accs[k])
+          /\ {Get(s.accIds, "ad", l.accs[k]).acc : k \in 1..Len(l.accs)} = BindingsOf(s, l.did)
+          /\ NoDup(l.accs)
+    /\ \A i \in 1..Len(s.bindings) : Has(s.accLists, "did", s.bindings[i].did)
+C17_SidPayAddrBound(s, cfg) ==
+    \A i \in 1..Len(s.pay) : ~IsKeyDid(cfg, s.pay[i].did) => s.pay[i].a \in BindingsOf(s, s.pay[i].did)
+C17_KidInjective(s) ==
+    /\ NoDup([i \in 1..Len(s.kids) |-> s.kids[i].a]) /\ NoDup([i \in 1..Len(s.kids) |-> s.kids[i].did])
+    /\ NoDup([i \in 1..Len(s.pay) |-> s.pay[i].did])
+NewBindings(x) == {b \in Rng(x.post.bindings) : ~(b \in Rng(x.pre.bindings))}
+GoneBindings(x) == {b \in Rng(x.pre.bindings) : ~(b \in Rng(x.post.bindings))}
+C17_BindingProven(x) ==
+    /\ \A b \in NewBindings(x) :
+          /\ Kind(x) = "Binding" /\ Ok(x) /\ b.acc = x.ev.acc /\ b.did = x.ev.did
+          /\ x.ev.sigmode = "ok" /\ x.ev.amount + 900 >= 0
+          /\ (Has(x.pre.versions, "doc", b.did) => Has(x.pre.bindings, "acc", x.ev.creator) /\ Get(x.pre.bindings, "acc", x.ev.creator).did = b.did)
+    /\ \A b \in GoneBindings(x) :
+          /\ Kind(x) = "DidUpdate" /\ Ok(x) /\ b.did = x.ev.did /\ InSeq(b.acc, x.ev.tx)
+          /\ Has(x.pre.bindings, "acc", x.ev.creator) /\ Get(x.pre.bindings, "acc", x.ev.creator).did = b.did
+C17_PayAddrChange(x, cfg) ==
+    /\ \A i \in 1..Len(x.pre.pay) : LET p == x.pre.pay[i] IN
+          IF IsKeyDid(cfg, p.did) THEN p \in Rng(x.post.pay)          \* a key DID's payment address never changes
+          ELSE HasPay(x.post, p.did) /\
+               (PayOf(x.post, p.did) # p.a => Kind(x) = "PayAddrSid" /\ Ok(x) /\ x.ev.did = p.did /\ PayOf(x.post, p.did) = x.ev.acc
+                                              /\ Has(x.pre.bindings, "acc", x.ev.creator) /\ Get(x.pre.bindings, "acc", x.ev.creator).did = p.did)
+    /\ \A i \in 1..Len(x.post.pay) : LET p == x.post.pay[i] IN
+          (~HasPay(x.pre, p.did) /\ IsKeyDid(cfg, p.did)) => Kind(x) = "PayAddr" /\ Ok(x) /\ x.ev.creator = p.a /\ x.ev.did = p.did
+
 \* C02: blocks never panic/hang; transactions never hang
 C02_NoHalt(x) == x.out.result \notin {"PANIC", "HANG"}
 =============================================================================
